@@ -393,6 +393,9 @@ def generate() -> tuple[str, list[str]]:
         emit(f"def backoffFailureLiterals : List Nat := {lean_nat_list(int_consts(func_ast(mc.ExponentialBackOff.failure)))}")
         emit(f"def backoffResetLiterals : List Nat := {lean_nat_list(int_consts(func_ast(mc.ExponentialBackOff.reset)))}")
         emit(f"def backoffInitLiterals : List Nat := {lean_nat_list(int_consts(func_ast(mc.ExponentialBackOff.__init__)))}")
+        _b = mc.ExponentialBackOff()      # the initial state, observed through the public API
+        emit(f"def backoffInitDelay : Nat := {int(_b.current_delay_sec)}")
+        emit(f"def backoffInitMax : Nat := {int(_b.max_delay)}")
         emit(f"def getBackOffTimeLiterals : List Nat := {lean_nat_list(int_consts(func_ast(mc.ConnectionManager._get_back_off_time)))}")
         emit("")
     # definitions a failed section could not produce: emit a typed placeholder (so that Generated.lean and the model
